@@ -103,11 +103,11 @@ Definition cstart (cs : cst) (t : nat) (o : op) : cst :=
   let s := base cs in
   match o with
   | Prepare key parent l mok cbad =>
-      let '(s1, r) := create_txn s KActive key parent l in after_create cs t s1 r key parent l mok cbad (l_target l)
+      let '(s1, r) := create_txn s KActive key parent (norm l) in after_create cs t s1 r key parent l mok cbad (l_target l)
   | View key parent l cbad =>
-      let '(s1, r) := create_txn s KView key parent l in after_create cs t s1 r key parent l true cbad None
+      let '(s1, r) := create_txn s KView key parent (norm l) in after_create cs t s1 r key parent l true cbad None
   | Commit nm key l =>
-      let '(s1, r) := commit_active s nm key l false in
+      let '(s1, r) := commit_active s nm key (norm l) false in
       finish cs t s1 (match r with None => ROk | Some e => RErr e end)
   | Mounts key cbad =>
       if closed s then finish cs t s (RErr EOther) else
@@ -143,7 +143,7 @@ Definition cstart (cs : cst) (t : nat) (o : op) : cst :=
   | Cleanup ubad =>
       if closed s then finish cs t s (RErr EOther)
       else park cs t s (FClean (cleanup_list s false) ubad ROk)
-  | Update nm l => let '(s1, r) := do_update s nm l in finish cs t s1 r
+  | Update nm l => let '(s1, r) := do_update s nm (norm l) in finish cs t s1 r
   | Stat nm => let '(s1, r) := do_stat s nm in finish cs t s1 r
   | Close ubad =>
       match frames cs with
@@ -170,7 +170,7 @@ Definition cresume (cs : cst) (t : nat) (f : frame) : cst :=
   | FCommit key l tg id =>
       (* commit(true, target, key, labels + remote): one write transaction *)
       let cid := match lookup (meta s) key with Some i => i_id i | None => id end in
-      match commit_active s tg key (set_remote l) true with
+      match commit_active s tg key (set_remote (norm l)) true with
       | (s3, None) => finish cs t (emit s3 (EvRemoteCommit cid)) RTargetExists
       | (s3, Some EExists) => finish cs t s3 RTargetExists
       | (s3, Some e) => finish cs t s3 (RErr e)
